@@ -77,6 +77,30 @@ def run_scenario_tlc(cfgs, mode):
         shutil.rmtree(wd, ignore_errors=True)
 
 
+def cost_samples_fit(chk, seed):
+    """robust and stochastic problems are built from create_cost_samples: for the prices of the problem itself the sampled cost vector must be
+    the problem's own cost vector (same length, same entries) -- for every asset type"""
+    from harness import zoo
+    for z in zoo.ZOO:
+        name, pf, pr, tg = z(seed)
+        chk.cnt['eval_cost_samples'] += 1
+        try:
+            with quiet():
+                op = pf.setup_optim_problem(pr, tg)
+                name2, pf2, pr2, tg2 = z(seed)
+                cs = pf2.create_cost_samples([pr2], tg2)
+        except Exception as e:
+            chk.violation(dict(check='cost_samples_raise', portfolio=name, error=type(e).__name__), 'create_cost_samples raised %s: %s' % (type(e).__name__, str(e)[:100]), dict(portfolio=name))
+            continue
+        c0 = np.asarray(op.c, float)
+        c1 = np.asarray(cs[0], float)
+        if c0.shape != c1.shape or not np.allclose(c0, c1, rtol=1e-12, atol=1e-12):
+            chk.violation(dict(check='cost_samples_differ', portfolio=name, same_length=bool(c0.shape == c1.shape)),
+                          'cost vector from create_cost_samples (%d entries) differs from the cost vector of the problem (%d entries)' % (len(c1), len(c0)), dict(portfolio=name))
+        else:
+            chk.nontrivial(('cost_samples', name))
+
+
 def mip_scenarios(chk, tier, seed):
     """portfolios with unit-commitment / storage booleans in the future stage (not expressible in EAOScenario, which builds on the LP asset
     semantics): the defining bounds and the structure of the extended problem are checked on the implementation"""
@@ -306,6 +330,7 @@ def run(tier, seed):
         chk.sample(dict(kind='scenario configuration with model and implementation values', cfg_id=c['id'], variant=c['variant'], stage=c['stage'], scenarios=c['scen'],
                         model_slp=slp_lat, impl_slp=v, per_scenario_optima=ws, robust_worst_case=worst, model_robust=rob_lat), limit=3)
     mip_scenarios(chk, tier, seed)
+    cost_samples_fit(chk, seed)
     chk.traces = 0
     chk.assumptions += ['scenarios share the present prices (hypothesis of the property)', 'SLP equality with the model only where the returned x is on the lattice']
     return chk.finish(rule='scenario sets (2 and 3 scenarios, coinciding scenarios) x boundary position (after the first step / before the last step) x portfolios with '
